@@ -1,13 +1,13 @@
 // C10 demo: unbounded recursion in ClipperBase::CheckSplitOwner (clipper.engine.cpp) -> stack overflow (SIGSEGV).
-// Public API only.  Coincident input: the same five paths are added three times as closed subjects, twice as open
-// subjects and once as clip (through a ReuseableDataContainer64), plus two more subject polygons and three open paths;
-// Execute(Xor, EvenOdd) into a PolyTree64.  The Paths64 overload of Execute on the same input returns normally.
+// Public API only.  Coincident input: ONE triangle, added once as clip and six times as subject;
+// Execute(Union or Xor, EvenOdd) into a PolyTree64.  The Paths64 overload of Execute on the same input returns normally.
+// (First seen through the C12 history `S2 R1 R0 O2 S2 O2 S2 T40`; second input below.)
 //
 // build: g++ -std=c++17 -O1 -I/repo/CPP/Clipper2Lib/include C10-checksplitowner-recursion.cpp \
 //            /repo/CPP/Clipper2Lib/src/clipper.engine.cpp /repo/CPP/Clipper2Lib/src/clipper.offset.cpp \
 //            /repo/CPP/Clipper2Lib/src/clipper.rectclip.cpp -o demo
-// The operation is run in a child process so that the demo itself can report: exit 0 = the property holds (Execute
-// returned), exit 1 = the child died (signal) or did not return within 20 s.
+// Each operation is run in a child process so that the demo itself can report: exit 0 = the property holds (every Execute
+// returned), exit 1 = a child died (signal) or did not return within 20 s.
 #include "clipper2/clipper.h"
 #include <cstdio>
 #include <csignal>
@@ -15,7 +15,18 @@
 #include <unistd.h>
 using namespace Clipper2Lib;
 
-static int run(bool tree) {
+static int run1(bool tree, ClipType ct) {
+  Path64 t = MakePath({20,-20, 30,-20, 20,-10});
+  Clipper64 c;
+  c.AddClip({t});
+  c.AddSubject({t, t, t, t, t, t});
+  if (tree) { PolyTree64 pt; c.Execute(ct, FillRule::EvenOdd, pt); std::printf("  returned, %zu top-level polygons\n", pt.Count()); }
+  else { Paths64 s; c.Execute(ct, FillRule::EvenOdd, s); std::printf("  returned, %zu paths\n", s.size()); }
+  std::fflush(stdout);
+  return 0;
+}
+
+static int run2(bool tree, ClipType) {   // the C12 history
   Paths64 set0 = { MakePath({10,10, 90,20, 80,90, 20,70}), MakePath({50,0, 120,60, 40,110}) };
   Paths64 set1 = { MakePath({-10,50, 60,55, 130,40}), MakePath({30,-20, 35,130}), MakePath({0,100, 50,20, 100,100, 150,20}) };
   Paths64 set2 = { MakePath({0,0, 30,0, 60,0, 60,60, 0,60, 0,0}), MakePath({60,0, 120,0, 120,60, 60,60}),
@@ -26,24 +37,28 @@ static int run(bool tree) {
   Clipper64 c;
   c.AddSubject(set2); c.AddReuseableData(r1); c.AddReuseableData(r0); c.AddOpenSubject(set2);
   c.AddSubject(set2); c.AddOpenSubject(set2); c.AddSubject(set2);
-  if (tree) { PolyTree64 t; Paths64 open; c.Execute(ClipType::Xor, FillRule::EvenOdd, t, open); std::printf("  tree: %zu top-level polygons\n", t.Count()); }
-  else { Paths64 s, open; c.Execute(ClipType::Xor, FillRule::EvenOdd, s, open); std::printf("  paths: %zu closed, %zu open\n", s.size(), open.size()); }
+  if (tree) { PolyTree64 t; Paths64 open; c.Execute(ClipType::Xor, FillRule::EvenOdd, t, open); std::printf("  returned, %zu top-level polygons\n", t.Count()); }
+  else { Paths64 s, open; c.Execute(ClipType::Xor, FillRule::EvenOdd, s, open); std::printf("  returned, %zu closed, %zu open\n", s.size(), open.size()); }
   std::fflush(stdout);
   return 0;
 }
 
-static int child(bool tree) {
-  std::fflush(stdout);
+static int child(const char* what, int (*f)(bool, ClipType), bool tree, ClipType ct) {
+  std::printf("%s\n", what); std::fflush(stdout);
   pid_t p = fork();
-  if (p == 0) { alarm(20); _exit(run(tree)); }
+  if (p == 0) { alarm(20); _exit(f(tree, ct)); }
   int st = 0; waitpid(p, &st, 0);
   if (WIFSIGNALED(st)) { std::printf("  child killed by signal %d (%s)\n", WTERMSIG(st), WTERMSIG(st) == SIGSEGV ? "SIGSEGV" : WTERMSIG(st) == SIGALRM ? "timeout" : "other"); return 1; }
   return WEXITSTATUS(st);
 }
 
 int main() {
-  std::printf("Execute(Xor, EvenOdd, Paths64):\n"); int a = child(false);
-  std::printf("Execute(Xor, EvenOdd, PolyTree64):\n"); int b = child(true);
-  std::printf("property C10 demands: both calls return.  got: paths %s, polytree %s\n", a ? "FAILED" : "returned", b ? "FAILED" : "returned");
-  return (a || b) ? 1 : 0;
+  int bad = 0;
+  bad += child("triangle x1 clip, x6 subject: Execute(Union, EvenOdd, Paths64)", run1, false, ClipType::Union);
+  bad += child("triangle x1 clip, x6 subject: Execute(Union, EvenOdd, PolyTree64)", run1, true, ClipType::Union);
+  bad += child("triangle x1 clip, x6 subject: Execute(Xor, EvenOdd, PolyTree64)", run1, true, ClipType::Xor);
+  bad += child("C12 history: Execute(Xor, EvenOdd, Paths64)", run2, false, ClipType::Xor);
+  bad += child("C12 history: Execute(Xor, EvenOdd, PolyTree64)", run2, true, ClipType::Xor);
+  std::printf("property C10 demands: every call returns.  got: %d of 5 calls did not return\n", bad);
+  return bad ? 1 : 0;
 }
